@@ -22,7 +22,11 @@ Record irun := IR {
   r_in : list nat                (* inorder_iter (binary cases; no stop condition) *)
 }.
 
-Inductive icase := CRose (t : tree) (runs : list irun) | CBin (b : btree) (runs : list irun).
+(* one tree with its runs; a case is a HISTORY: the tree as built, then the tree after each group of
+   structural edits (computed by the harness' shadow and checked against the implementation's links),
+   each with the runs performed at that point *)
+Inductive icase1 := CRose (t : tree) (runs : list irun) | CBin (b : btree) (runs : list irun).
+Definition icase := list icase1.
 
 Fixpoint bsubtree_at (b : btree) (p : list nat) : option btree :=
   match p with
@@ -80,8 +84,14 @@ Definition combine_runs (rs : list (option (bool * bool))) : nat :=
   flag (existsb (fun x => match x with Some (a, _) => negb a | None => false end) rs) F_DISAGREE
   + flag (existsb (fun x => match x with Some (_, p) => negb p | None => false end) rs) F_PROPFAIL.
 
-Definition check_C04 (c : icase) : nat :=
+Definition check1 (c : icase1) : nat :=
   match c with
   | CRose t runs => if tags_distinct t then combine_runs (map (run_rose t) runs) else F_SKIP
   | CBin b runs => if tags_distinct (img b) then combine_runs (map (run_bin b) runs) else F_SKIP
   end.
+
+(* flags of a history: a disagreement / property failure at any point counts; skipped only if nothing else *)
+Definition check_C04 (c : icase) : nat :=
+  let fs := map check1 c in
+  let bad := flag (existsb Nat.odd fs) F_DISAGREE + flag (existsb (fun f => Nat.odd (Nat.div2 f)) fs) F_PROPFAIL in
+  if Nat.eqb bad 0 then flag (existsb (Nat.eqb F_SKIP) fs) F_SKIP else bad.
